@@ -50,7 +50,50 @@ def _w(prog):
     return [("W", "remove_file census", have == want)]
 
 
-KIND_TESTS = {"P": _p, "O": _o, "K": _k, "W": _w}
+def _p2(prog):
+    """must_pass towards a target whose own callee is in the must-set: the target does not count."""
+    out = []
+    ds = E.MustSet(prog, ["fsync_directory"], "fix-dirsync")
+    for name, expect in (("p2::bad_switch_before_dirsync", False), ("p2::good_dirsync_then_switch", True)):
+        f = prog.need(name)
+        sw = f.calls_to("p2::switch_current")[0]
+        syncs = {c.bb for c in f.calls_to(SYNC_ALL)}
+        ok = E.must_pass(f, ds, from_bbs=list(syncs), to_bbs=[sw.bb], success_only=False)
+        out.append(("P", name, ok == expect))
+    return out
+
+
+def _k2(prog):
+    """licensing edges: cut the true edge of `total > limit`; the push must become unreachable."""
+    out = []
+    for name, expect in (("k2::good_licensed", True), ("k2::bad_or_licensed", False)):
+        f = prog.need(name)
+        edges = set()
+        for a in range(f.n):
+            t = f.blocks[a]["term"]
+            if t["k"] != "switch":
+                continue
+            for o in E.switch_condition(f, a):
+                if o.kind == "bin" and o.what == "Gt":
+                    zero = [tg for (v, tg) in t.get("targets", []) if str(v) == "0"]
+                    for s_ in f.succ(a):
+                        if s_ not in zero:
+                            edges.add((a, s_))
+        push = [c for c in f.calls if c.sres.endswith("Vec::push")][0]
+        ok = bool(edges) and push.bb not in f.reach([0], cut_edges=edges)
+        out.append(("K", name, ok == expect))
+    return out
+
+
+def _pk(prog):
+    return _p(prog) + _p2(prog)
+
+
+def _kk(prog):
+    return _k(prog) + _k2(prog)
+
+
+KIND_TESTS = {"P": _pk, "O": _o, "K": _kk, "W": _w}
 
 
 def register(kind, fn):
@@ -150,6 +193,12 @@ def _l(prog):
                     if gl[h][0] != a:
                         es.add((gl[h][0], a))
         return es
+    # at most one acquisition of the history lock per path
+    for name, expect in (("l::Tree::good_one_read", True), ("l::Tree::bad_two_reads", False)):
+        f = prog.need(name)
+        sites = [c for c in f.calls if "VH" in L.call_may_acquire(c)]
+        twice = [(a, b) for a in sites for b in sites if a is not b and b.bb in f.reach_after(a.bb)]
+        out.append(("L", name, (bool(sites) and not twice) == expect))
     out.append(("L", "l::Tree::good_order", edges("l::Tree::good_order") == {("CS", "VH")}))
     out.append(("L", "l::Tree::bad_order", edges("l::Tree::bad_order") == {("VH", "CS")}))
     return out
